@@ -36,8 +36,8 @@ TRUSTED_BASE = [
 ]
 ASSUMPTIONS = [
     "codec libraries are correct; the bytes a member is listed against are the bytes extractall(factory) delivers",
-    "reference-written archives exclude only the layouts of the open C06 finding (directory entries without the directory "
-    "attribute)",
+    "reference-written archives exclude no layout of the generator (directories without attributes / without the directory "
+    "attribute and empty files carrying it are generated often)",
     "archiveinfo() is exercised on archives opened by path; FileInfo.compressed, ArchiveInfo.header_size/stat are "
     "outside C10's statement and not checked; timestamps of list() only through the model (carry-over quirk reported)",
 ]
@@ -331,10 +331,9 @@ def case_ref(rng, special=None, feature=None):
             lay.pop("no_substreams", None)
             if lay.get("crc") in ("folder", "folder-partial"):
                 lay["crc"] = "substream"
-        # layouts py7zr still cannot read (known C06 findings) stay out: directory entries without the directory
-        # attribute; an empty FILE carrying the directory attribute contradicts itself
-        if set(c06.classify(members, lay)) & {"dir_without_dir_attribute", "emptyfile_with_dir_attribute"}:
-            continue
+        # directory entries without the directory attribute and empty FILES carrying it are in (c06.gen_members makes
+        # them often): is_directory is the format's EmptyFile rule since the repair of the C06 finding
+        kind_feats = [f for f in c06.classify(members, lay) if f in ("dir_without_dir_attribute", "emptyfile_with_dir_attribute")]
         if special == "nameless":
             lay["header"] = "raw"
         data = refwriter.write_archive(members, lay)
@@ -355,6 +354,7 @@ def case_ref(rng, special=None, feature=None):
                              + (["COPY"] if lay.get("zero_folder_after") is not None else [])))
         return {"source": "ref", "archive": data.hex(), "password": None, "aes": False, "methods": methods,
                 "layout": lay, "crc_mode": lay.get("crc"), "special": special, "feature": feature,
+                "kind_feats": kind_feats,
                 "desc": "reference-written %s folders=%r coders=%r crc=%s header=%s%s%s" % (
                     special or feature or "plain", parts, lay.get("coders"), lay.get("crc"), lay.get("header"),
                     " packpos=%d" % lay["packpos"] if lay.get("packpos") else "",
@@ -801,6 +801,8 @@ def run(ctx):
         rep.dist("folders", t["folders"])
         rep.dist("members", len(t["members"]))
         rep.dist("header", "encoded" if t["encoded"] else "raw")
+        for ft in c.get("kind_feats") or (["attributes agree with EmptyFile"] if c["source"] == "ref" else []):
+            rep.dist("entries_without_data", ft)
         for m in c["methods"]:
             rep.dist("coder", m)
         if "archiveinfo_stream" in obs:
